@@ -48,10 +48,19 @@ func TestMain(m *testing.M) {
 	for _, name := range []string{"%url", "%mimetype", "rec"} {
 		copyFile(recorder, filepath.Join(dir, name))
 	}
+	// and under a name that cannot be run: the file is there, it is not executable
+	copyFile(recorder, filepath.Join(dir, "rec.noexec"))
+	os.Chmod(filepath.Join(dir, "rec.noexec"), 0o644)
 	os.Setenv("PATH", dir+":"+os.Getenv("PATH"))
 	dumpFile = filepath.Join(dir, "dump.jsonl")
 	os.Setenv("ARGDUMP_FILE", dumpFile)
 	os.Exit(m.Run())
+}
+
+// unrunnable: a first field that names no program which can be run as it stands (a program written together with a
+// flag, a file without the executable bit, a name that does not exist)
+func unrunnable(program string) bool {
+	return program == "rec --fullscreen" || program == "rec.noexec" || program == "no-such-program-4711"
 }
 
 func copyFile(src, dst string) {
@@ -238,6 +247,14 @@ func check(c Case) vrep.Result {
 			return fmt.Errorf("%s: mode is %d after the hook finished", what, snap.Mode)
 		}
 		recs := readRecords()[before:]
+		if unrunnable(hook[0]) {
+			// the first field names no program that can be run as it stands: nothing is started - least of all by
+			// handing the fields to something that splits or interprets them (seed C20-L)
+			if len(recs) != 0 {
+				return fmt.Errorf("%s: the hook's program %q cannot be run as it stands, yet something was started with %q", what, hook[0], recs[0].Argv)
+			}
+			return nil
+		}
 		if !present {
 			if len(recs) != 0 {
 				return fmt.Errorf("%s: nothing to open, yet the hook ran: %q", what, recs[0].Argv)
@@ -283,7 +300,7 @@ func check(c Case) vrep.Result {
 		if err := press(fmt.Sprintf("%d\r", k), fmt.Sprintf("link %d + Enter", k), link, mt, present); err != nil {
 			return vrep.Result{Classes: classes, Err: err}
 		}
-		if present {
+		if present && !unrunnable(hook[0]) {
 			recs := readRecords()
 			firstArgv[k] = recs[len(recs)-1].Argv
 		}
@@ -369,7 +386,7 @@ func genAtt(t *rapid.T, types []string) Att {
 
 func gen(t *rapid.T) Case {
 	c := Case{PostKind: rapid.SampledFrom([]string{"Note", "Video", "Image", "Audio", "Article"}).Draw(t, "postkind")}
-	c.Hook = []string{rapid.SampledFrom([]string{"rec", "rec", "rec", "%url", "%mimetype"}).Draw(t, "program")}
+	c.Hook = []string{rapid.SampledFrom([]string{"rec", "rec", "rec", "%url", "%mimetype", "rec", "rec", "rec --fullscreen", "rec.noexec", "no-such-program-4711"}).Draw(t, "program")}
 	for n := rapid.IntRange(0, 5).Draw(t, "nargs"); n > 0; n-- {
 		c.Hook = append(c.Hook, rapid.SampledFrom(argPool).Draw(t, "arg"))
 	}
